@@ -132,8 +132,8 @@ m("c09-estimate-without-size-field", "C09", "detect", [(VAL,
    "            .roundup(ValuePieceSize::new(piece_len));\n        //\n        if !is_new {")],
   "slot size estimate forgets the size field (write path only: the arithmetic hook does not see it)")
 m("c09-roundup-off-by-one", "C09", "detect", [(PIECE, "            if piece_size <= n_sz {", "            if piece_size - 1 <= n_sz {")], "round-up accepts a class one byte too small")
-m("c09-large-round-127", "C09", "detect", [(PIECE, "((piece_size + 128) / 128) * 128", "((piece_size + 127) / 128) * 128")],
-  "large rounding without the spare byte")
+m("c09-neg-large-round-127", "C09", "silent", [(PIECE, "((piece_size + 128) / 128) * 128", "((piece_size + 127) / 128) * 128")],
+  "NEGATIVE CONTROL (found to be equivalent by the first self-test run): large rounding without the spare byte; the size-field estimate alone is exact enough, every record still fits (exhaustive sweep). It only breaks together with a second change (seeded change C01-2)")
 m("c09-key-estimate-len-field", "C09", "detect", [(KEY,
    "            let enc_key_len = vu64::encoded_len(key_len.as_value() as u64) as u32;",
    "            let enc_key_len = 1u32;")], "key length field assumed to be one byte")
